@@ -154,7 +154,7 @@ class Stats:
 class Exec:
     """One path execution."""
 
-    def __init__(self, module, prefix, stats, intercepts=None, patterns=None, loop_cap=24, timeout_ms=20000,
+    def __init__(self, module, prefix, stats, intercepts=None, patterns=None, loop_cap=24, timeout_ms=60000,
                  max_instrs=400000):
         self.m = module
         self.prefix = prefix
@@ -1138,7 +1138,7 @@ class Result:
 
 
 def explore(module, body, on_path, stats=None, intercepts=None, patterns=None, max_paths=20000, loop_cap=24,
-            deadline=None, timeout_ms=20000):
+            deadline=None, timeout_ms=60000):
     """Depth-first exploration by re-execution.  body(ex) builds the initial state, calls ex.run(fn, args) one or
     more times and returns a value; on_path(Result) is called for every finished path.
     Returns (stats, problems) where problems lists reasons the exploration is not exhaustive."""
